@@ -213,8 +213,21 @@ func runCheck(o CheckOpts) int {
 	ev := newEvidence(o)
 	violations := 0
 	var lines []string
+	// An obligation counts for the property if it carries the tag, or if its
+	// goal is assumed afterwards inside a function that carries the tag
+	// (invariants, call-site assertions, callee preconditions, safety and frame
+	// conditions): leaving one of those undischarged would make every later
+	// proof in that function vacuous. Only untagged postconditions (aux
+	// clauses, never assumed by callers) may fail without raising an alarm.
 	relevant := func(ob *Obligation) bool {
-		return o.Prop == "all" || hasTag(ob.Tags, o.Prop)
+		if o.Prop == "all" || hasTag(ob.Tags, o.Prop) {
+			return true
+		}
+		switch ob.Kind {
+		case "post", "refine", "lemma":
+			return false
+		}
+		return true
 	}
 	for _, bf := range bindFailures {
 		violations++
@@ -281,7 +294,7 @@ func runCheck(o CheckOpts) int {
 		reason := res.Status
 		confirmed := false
 		var rp string
-		if res.Status == "sat" || (res.Model != "" && adapterFor(o.Verif, ob.Func) != "") {
+		if res.Status == "sat" || adapterFor(o.Verif, ob.Func) != "" {
 			rp, confirmed = replayModel(o, ob)
 		} else {
 			rp = writeReplay(o, ob.Name, "solver answered "+res.Status+" "+fmt.Sprint(res.All)+"\n"+res.Output, ob)
